@@ -145,8 +145,11 @@ def run_auth(scripts):
     Beacon.log = []
     Tr.counts = {}
     try:
-        return functions.run_auth_scripts(list(scripts), {},
-                                          {CID: Beacon()})
+        ss = [bytes(x) for x in scripts]
+        # under limits the verifier configured (roomy, but not the defaults
+        # and not equal to each other)
+        return functions.run_auth_scripts(ss, {}, {CID: Beacon()},
+                                          **env.roomy_limits(*ss))
     except BaseException as e:
         return e
 
